@@ -79,6 +79,10 @@ pub(crate) mod k {
         pub fn with_base(base: u64) -> Self {
             Sink { buf: [0u8; CAP], off: 0, end: 0, base, env: Env::quiet(), overflow: false }
         }
+        /// takes the whole array (no copy loop); `end` is the logical length
+        pub fn from_array(buf: [u8; CAP], end: usize) -> Self {
+            Sink { buf, off: 0, end, base: 0, env: Env::quiet(), overflow: false }
+        }
         pub fn from_bytes(src: &[u8]) -> Self {
             let mut s = Self::new();
             let mut i = 0;
